@@ -6,19 +6,26 @@ MODELS = ["SPool/SPoolModel.vo"]
 def generate(rng, tier, mode="default"):
     out = []
     SIZES = lambda size: sorted(set([0, 1, 3, 4, 8, size, size + 1, max(size - 1, 0), 2**64 - 1, 2**63]))
-    # exhaustive: all sequences of <= L operations over a small alphabet on small pools
-    L = 4 if tier == "quick" else 5
+    # exhaustive: ALL sequences of 3 operations over the alphabet (quick and thorough), then sequences of 4 (5 thorough)
+    # sampled in quick and complete in thorough; the alphabet has zero-size, exact-fit and over-size requests, the
+    # zero-size calloc forms, frees of the latest and of stale pointers
+    def alphabet(size):
+        a = ["malloc %d" % n for n in (0, 3, 8, size, size + 1)] + ["calloc 2 4", "calloc 1 0", "calloc 0 5", "reset", "write 255",
+             "free 0", "free 3", "free 8", "free 11"]
+        return list(dict.fromkeys(a))
+    deep = []
     for size in ([0, 1, 8, 16] if tier == "quick" else [0, 1, 2, 7, 8, 16]):
         for offset in ([0, 3] if tier == "quick" else [0, 1, 3]):
-            alpha = ["malloc %d" % n for n in (0, 3, 8, size, size + 1)] + ["calloc 2 4", "calloc 1 0", "reset", "write 255",
-                     "free 0", "free 3", "free 8", "free 11"]
-            alpha = list(dict.fromkeys(alpha))
-            for w in itertools.product(alpha, repeat=L):
-                out.append(["T ? spool size=%d offset=%d" % (size, offset)] + list(w) + ["END"])
+            al = alphabet(size)
+            for w in itertools.product(al, repeat=3):
+                out.append(["T ? spool size=%d offset=%d" % (size, offset)] + list(w) + ["malloc 2", "END"])
+            for w in itertools.product(al, repeat=(4 if tier == "quick" else 5)):
+                deep.append(["T ? spool size=%d offset=%d" % (size, offset)] + list(w) + ["END"])
     if tier == "quick":
-        rng2 = rng
-        rng2.shuffle(out)
-        out = out[:6000]
+        rng.shuffle(deep); deep = deep[:4000]
+    elif len(deep) > 400000:
+        rng.shuffle(deep); deep = deep[:400000]
+    out += deep
     # random long histories with mixed sizes, frees of the latest and of stale pointers
     n = 600 if tier == "quick" else 8000
     for _ in range(n):
